@@ -15,10 +15,15 @@ META = {
                  "induction reusing the C20 round trip; refutation witnesses computed in Coq for the f-string and dotted-"
                  "identifier cuts; exhaustive cut-point oracle on hy.read_many and REPL.runsource for generated programs; "
                  "model-vs-implementation differential run on every prefix",
-    "level_text": "see coq/Props/C19.v: truncation theorems for all partial trees with no size bound; C19_refuted_* exhibit the "
-                  "three cut classes where the faithful model (and the code) answers LexException; every cut point of every "
-                  "generated program is evaluated on the real reader (quick: ~40k prefixes, thorough: ~600k) and a sample on "
-                  "the REPL.",
+    "level_text": "Theorems C19_truncation_premature_partial / C19_truncation_in_context_partial (coq/Props/C19.v): for every "
+                  "partial program -- a printed program cut after any item, separator, opener or prefix, inside any whitespace "
+                  "run, comment, tag, discard or string-like leaf, at any depth, with arbitrary separators -- read_many gives "
+                  "Premature iff the cut leaves a construct open and otherwise the forms completed so far; no size bound.  "
+                  "C19_repl_continuation: the REPL asks for more iff Premature (caught class regenerated from hy/repl.py).  "
+                  "C19_refuted_fstring_field / _dotted_identifier / _fstring_rbrace: three cut classes where the faithful model "
+                  "(and the code) answers LexException -- recorded as known findings.  Every cut point of every generated "
+                  "program is evaluated on hy.read_many (quick ~29k prefixes, thorough ~400k), a sample on REPL.runsource, and "
+                  "model = implementation is checked on every prefix.",
     "level_note": "Trusted: as C18/C20.  The theorem quantifies over partial trees; that every cut point of a printed tree is "
                   "the printing of a partial tree (the prefix-decomposition) is stated as C19_full's first conjunct and is "
                   "validated per cut by the harness labels rather than proved.  Cuts strictly inside an identifier-like token "
